@@ -817,6 +817,12 @@ func (env *specEnv) call(t *ast.CallExpr) SVal {
 		i := env.asInt64(env.toType(env.eval(t.Args[1]), types.Typ[types.Int]))
 		p := toPtr(pv.V)
 		return SVal{V: Scalar{T: c.loadCell(env.heap, K8, Ptr{p.R, c.Add(p.O, i)}, 0)}, T: types.Typ[types.Uint8]}
+	case "ptradd":
+		// ptradd(p, k): the unsafe pointer p moved by k bytes (k may be negative)
+		pv := env.eval(t.Args[0])
+		k := env.asInt64(env.toType(env.eval(t.Args[1]), intT))
+		pp := toPtr(pv.V)
+		return SVal{V: Ptr{pp.R, c.Add(pp.O, k)}, T: pv.T}
 	case "bytes":
 		// bytes(p, n): the []byte view of the n bytes at an unsafe pointer (what rt.BytesFrom(p, n, n) denotes)
 		pv := env.eval(t.Args[0])
